@@ -289,6 +289,52 @@ type SpecPhase struct {
 }
 
 // SpecPhases parses spec.phases of a stored ObjectSet (inline objects only).
+// ProbeFor returns the reference prober for the availability probes an ObjectSet (or
+// ObjectSetPhase) content declares: none (present objects pass), world.CELProbes (a Widget needs
+// a Ready=True condition; nothing selects other kinds) or world.StdProbes (RefProbe).
+func ProbeFor(owner map[string]any) func(map[string]any) bool {
+	pr, _ := world.Nested(owner, "spec", "availabilityProbes")
+	prl, _ := pr.([]any)
+	switch {
+	case len(prl) == 0:
+		return func(map[string]any) bool { return true }
+	case strings.Contains(kmodel.Digest(map[string]any{"p": pr}), "self.status.conditions.exists"):
+		return func(c map[string]any) bool {
+			if k, _ := c["kind"].(string); k != "Widget" {
+				return true
+			}
+			st, _, _, ok := world.Condition(c, "Ready")
+			return ok && st == "True"
+		}
+	}
+	return RefProbe
+}
+
+// SpecPhasesIn is SpecPhases with the phases' ObjectSlices (as stored in s) inlined after the
+// inline objects, the way the slice loader does it; a missing slice contributes nothing.
+func SpecPhasesIn(s *kmodel.Store, os map[string]any, ns string) []SpecPhase {
+	out := SpecPhases(os, ns)
+	ph, _ := world.Nested(os, "spec", "phases")
+	l, _ := ph.([]any)
+	for i, e := range l {
+		m, _ := e.(map[string]any)
+		sl, _ := m["slices"].([]any)
+		for _, sn := range sl {
+			so := s.Objs[world.PKOKey("ObjectSlice", ns, fmt.Sprint(sn))]
+			if so == nil {
+				continue
+			}
+			objs, _ := so.Content["objects"].([]any)
+			for _, oe := range objs {
+				om, _ := oe.(map[string]any)
+				obj, _ := om["object"].(map[string]any)
+				out[i].Objects = append(out[i].Objects, keyOfContent(obj, ns))
+			}
+		}
+	}
+	return out
+}
+
 func SpecPhases(os map[string]any, ns string) []SpecPhase {
 	var out []SpecPhase
 	ph, _ := world.Nested(os, "spec", "phases")
@@ -606,7 +652,9 @@ func ObjectSetsOf(s *kmodel.Store, od string) []kmodel.Key {
 			ks = append(ks, k)
 		}
 	}
-	sort.SliceStable(ks, func(i, j int) bool { return StatusRevision(s.Objs[ks[i]].Content) < StatusRevision(s.Objs[ks[j]].Content) })
+	sort.SliceStable(ks, func(i, j int) bool {
+		return StatusRevision(s.Objs[ks[i]].Content) < StatusRevision(s.Objs[ks[j]].Content)
+	})
 	return ks
 }
 
